@@ -112,7 +112,10 @@ def io_document(g):
 
     fill(d, r.randint(1, 6))
     for _ in range(r.choice([0, 0, 1, 2])):
-        b = d.bundle(name())
+        bid = name()
+        while any(x.identifier is not None and x.identifier.uri == bid.uri for x in d.bundles):
+            bid = name()        # a document cannot hold two bundles under one identifier
+        b = d.bundle(bid)
         fill(b, r.randint(1, 4))
     return d
 
